@@ -163,6 +163,7 @@ func (s *Sim) OnTx(m *Model, t *TxTrace) {
 			r.Fail("C17", "write-under-unknown-contract", "tx %d (%v) wrote key %x outside every native contract", t.Index, stepOf(t), k)
 		}
 	}
+	s.checkKeys(t)
 	if t.P == nil {
 		s.onEpoch(m, t)
 		return
